@@ -105,6 +105,18 @@ PROPS = {
         ],
         "explanation": "",
     },
+    "C05": {
+        "modules": ["contracts.server_units", "contracts.worker_units", "contracts.dispatcher_units"],
+        "level": "proof",
+        "trusted_base": [T_PY, T_ENGINE, T_SOLVER, T_AIO, T_CONN, T_IND, T_PATH],
+        "assumptions": [
+            "SEQ: commands are sent one at a time (the property's quantifier)",
+            "the reference model is the table contracts/server_units.py:MODEL (reply codes allowed per verb, fields a verb may write) plus the state clauses of c05_exit, written from the property statement and RFC 959/3659",
+            "OS errors while binding a passive listener (other than EADDRINUSE) are outside the quantifier (command sequences): PASV/EPSV may then end the session through the dispatcher's except Exception",
+        ],
+        "not_decided": ["replies 'in order' across pipelined commands; liveness of the response writer task", "the resulting file tree (needs the backend outcome specification of C18)"],
+        "explanation": "",
+    },
     "C06": {
         "modules": ["contracts.c06_framing"],
         "level": "proof",
